@@ -336,6 +336,20 @@ theorem pySlice_sublist (xs : List Val) (a b : Int) : (projSlice xs a b).Sublist
   unfold projSlice
   exact (List.take_sublist _ _).trans (List.drop_sublist _ _)
 
+theorem slicePairNum_sublist {s l : Val} {xs ys : List Val}
+    (h : slicePairNum s l xs = .ok ys) : ys.Sublist xs := by
+  unfold slicePairNum at h
+  simp only at h
+  split at h
+  · cases h
+  · split at h
+    · cases h; exact pySlice_sublist _ _ _
+    · split at h
+      · split at h
+        · cases h; exact pySlice_sublist _ _ _
+        · cases h
+      · cases h
+
 theorem sliceOp_sublist {sv : Val} {xs ys : List Val} (h : sliceOp sv xs = .ok ys) :
     ys.Sublist xs := by
   unfold sliceOp at h
@@ -345,7 +359,7 @@ theorem sliceOp_sublist {sv : Val} {xs ys : List Val} (h : sliceOp sv xs = .ok y
     · cases h
     · split at h
       · cases h; exact pySlice_sublist _ _ _
-      · cases h
+      · exact slicePairNum_sublist h
   · cases h
   · split at h
     · split at h <;> (cases h; exact pySlice_sublist _ _ _)
